@@ -296,6 +296,37 @@ pub fn run(opts: &Opts) -> Report {
             }
         }
     }
+    // ---------- one dataset as a vocabulary under insertions, removals and merges: the Lean model `Vocab` (the key -> data
+    // index the code keeps), and its invariants checked on the implementation's own dump ----------
+    {
+        let n = if opts.thorough() { 6000 } else { 800 };
+        for i in 0..n {
+            let nops = 2 + rng.below(14);
+            let mut ops: Vec<String> = vec![];
+            let mut merged = false;
+            for _ in 0..nops {
+                let r = rng.below(100);
+                let reg = if rng.chance(35) { 1 } else { 0 };
+                if r < 62 {
+                    let id = if rng.chance(45) { format!("D{}", rng.below(5)) } else { "-".to_string() };
+                    ops.push(format!("i{},{},k{},v{},{}", reg, id, rng.below(4), rng.below(3), if rng.chance(85) { 1 } else { 0 }));
+                } else if r < 76 { ops.push(format!("d{},{}", reg, rng.below(8))); }
+                else if r < 84 { ops.push(format!("k0,{}", rng.below(5))); }
+                else { ops.push("m".into()); merged = true; }
+            }
+            let line = format!("vo {}", ops.join(" "));
+            rep.count(if merged { "vocab:with-merge" } else { "vocab:no-merge" });
+            rep.case(Some(&line));
+            match guarded(std::panic::AssertUnwindSafe(|| vocab_exec(&ops))) {
+                Ok((dump, bad)) => {
+                    if let Some(b) = bad.first() { rep.fail("oracle", &format!("vocabulary/operations/{}", b.split(':').next().unwrap_or("?")), vec![line.clone()], "keys unique, identifiers unique, every key lists exactly the items carrying it (each once, in order), every item's key exists", b); }
+                    rep.model_case(vec![line], vec![dump], "vocab");
+                }
+                Err(m) => rep.fail("panic", "vocabulary/operations/panic", vec![line.clone()], "no panic", &m),
+            }
+            let _ = i;
+        }
+    }
     // ---------- find_data = scan ----------
     let nstores = if opts.thorough() { 400 } else { 60 };
     for si in 0..nstores {
@@ -405,4 +436,58 @@ fn all_data(store: &AnnotationStore) -> Vec<(String, String, String, bool)> {
         }
     }
     v
+}
+
+/// the operations of a `vo` line on two real datasets (the first lives in a store, so that keys are removed by the
+/// library's own `remove_key`); the dump the Lean driver prints, and what breaks the vocabulary's invariants
+fn vocab_exec(ops: &[String]) -> (String, Vec<String>) {
+    let mut store = AnnotationStore::default();
+    store.add_dataset(AnnotationDataSetBuilder::new().with_id("a")).expect("dataset");
+    let mut other = AnnotationDataSet::new(Config::default()).with_id("a");
+    for op in ops {
+        let f: Vec<&str> = op.split(',').collect();
+        match f[0] {
+            "i0" | "i1" => {
+                let ds: &mut AnnotationDataSet = if f[0] == "i0" { store.get_mut("a").expect("dataset a") } else { &mut other };
+                let id: BuildItem<AnnotationData> = if f[1] == "-" { BuildItem::None } else { BuildItem::Id(f[1].to_string()) };
+                let _ = ds.insert_data(id, f[2], f[3], f[4] == "1");
+            }
+            "d0" | "d1" => {
+                let ds: &mut AnnotationDataSet = if f[0] == "d0" { store.get_mut("a").expect("dataset a") } else { &mut other };
+                let _ = <AnnotationDataSet as StoreFor<AnnotationData>>::remove(ds, AnnotationDataHandle::new(f[1].parse().unwrap()));
+            }
+            "k0" => { let _ = store.remove_key("a", DataKeyHandle::new(f[1].parse().unwrap()), true); }
+            "m" => {
+                let o = std::mem::replace(&mut other, AnnotationDataSet::new(Config::default()).with_id("a"));
+                let ds: &mut AnnotationDataSet = store.get_mut("a").expect("dataset a");
+                let _ = ds.merge(o);
+            }
+            _ => {}
+        }
+    }
+    let show = |ds: &AnnotationDataSet| -> (String, Vec<String>) {
+        let (kl, dl) = ds.verif_dump_slots();
+        let keys: Vec<Option<String>> = kl.iter().enumerate().map(|(h, l)| if *l { let k: Result<&DataKey, _> = ds.get(DataKeyHandle::new(h)); k.ok().map(|k| k.as_str().to_string()) } else { None }).collect();
+        let data: Vec<Option<(Option<String>, usize, String)>> = dl.iter().enumerate().map(|(h, l)| if *l { let d: Result<&AnnotationData, _> = ds.get(AnnotationDataHandle::new(h)); d.ok().map(|d| (d.id().map(|x| x.to_string()), d.key().as_usize(), match d.value() { DataValue::String(s) => s.clone(), v => format!("{:?}", v) })) } else { None }).collect();
+        let idx: Vec<(usize, Vec<usize>)> = ds.verif_dump_key_data_map().into_iter().filter(|(_, v)| !v.is_empty()).collect();
+        let dump = format!("K[{}] D[{}] X[{}]", keys.iter().map(|k| k.clone().unwrap_or("~".into())).collect::<Vec<_>>().join(","),
+            data.iter().map(|d| match d { Some((id, k, v)) => format!("{}:{}={}", id.clone().unwrap_or("-".into()), k, v), None => "~".into() }).collect::<Vec<_>>().join(","),
+            idx.iter().map(|(k, v)| format!("{}:{}", k, v.iter().map(|x| x.to_string()).collect::<Vec<_>>().join("."))).collect::<Vec<_>>().join(","));
+        // the invariants, from the dump alone
+        let mut bad = vec![];
+        for (i, a) in keys.iter().enumerate() { for b in keys.iter().skip(i + 1) { if a.is_some() && a == b { bad.push(format!("keys-unique: the key {:?} exists twice", a)); } } }
+        for (i, a) in data.iter().enumerate() { for b in data.iter().skip(i + 1) { if let (Some((Some(x), _, _)), Some((Some(y), _, _))) = (a, b) { if x == y { bad.push(format!("ids-unique: two items {} (first at {})", x, i)); } } } }
+        for k in 0..keys.len().max(idx.iter().map(|(k, _)| k + 1).max().unwrap_or(0)) {
+            let listed: Vec<usize> = idx.iter().find(|(kk, _)| *kk == k).map(|(_, v)| v.clone()).unwrap_or_default();
+            let carrying: Vec<usize> = data.iter().enumerate().filter(|(_, d)| matches!(d, Some((_, kk, _)) if *kk == k)).map(|(h, _)| h).collect();
+            if listed != carrying { bad.push(format!("key-index: key {} lists {:?}, the items carrying it are {:?}", k, listed, carrying)); }
+        }
+        for d in data.iter().flatten() { if !matches!(keys.get(d.1), Some(Some(_))) { bad.push(format!("key-exists: an item carries key {} which does not exist", d.1)); } }
+        (dump, bad)
+    };
+    let a: &AnnotationDataSet = store.get("a").expect("dataset a");
+    let (da, mut bad) = show(a);
+    let (db, bad2) = show(&other);
+    bad.extend(bad2);
+    (format!("{} | {}", da, db), bad)
 }
